@@ -74,6 +74,7 @@ def run(pid, replay=None):
             rot = [("perm", 2), ("temp", -2), ("perm", 10002), ("temp", 2)]
             for i, c in enumerate(sel):
                 c["mode"], c["dc"] = rot[i % 4]
+                c["prime"] = ("builtin", "group14")[(i // 4) % 2]
             cases = sel
         reps = 3 if thorough else 2
         for c in cases:
